@@ -758,12 +758,6 @@ Definition hro_le (a b : option Z) : Prop :=
 Lemma hro_le_refl a : hro_le a a.
 Proof. destruct a; cbn; [lia|exact I]. Qed.
 
-Lemma fold_W_rd cf l : forall s, s_rd (fold_left (deliver_sub_W cf) l s) = s_rd s.
-Proof.
-  induction l as [|m t IH]; intros s; cbn [fold_left]; [reflexivity|].
-  rewrite IH. apply (deliver_sub_W_frame cf s m).
-Qed.
-
 Lemma deliver_subs_R_nowp cf r l : forall acc, rd_wp r = None -> deliver_subs_R cf r l acc = (r, acc).
 Proof.
   induction l as [|m t IH]; intros acc Ew; cbn [deliver_subs_R]; [reflexivity|].
@@ -777,6 +771,7 @@ Proof.
   intros HS HA Ep Hd Hauth. unfold deliver_dgram. destruct (dg_toR d).
   - destruct (s_rdead s); [split; [assumption|apply hro_le_refl]|].
     destruct (s_rd s) as [r|] eqn:Er; [|split; [assumption|apply hro_le_refl]].
+    destruct (rd_alive r); [|split; [assumption|apply hro_le_refl]].
     destruct (deliver_subs_R cf r (dg_subs d) []) as [r1 out] eqn:E.
     pose proof HA as [H1 H2 H3]. rewrite Ep in H3. destruct H3 as (Hfr & Hhs & Hreq & Hnet & Hrd).
     unfold ROk in Hrd. rewrite Er in Hrd.
@@ -833,7 +828,7 @@ Lemma CInv_poke cf s : CInv s -> CInv (poke cf s).
 Proof.
   intros (HS & HN & HA). split; [apply poke_SInv; assumption|]. split; [|apply AInv_poke; assumption].
   destruct (s_rp s) as [p|] eqn:Ep.
-  - destruct (poke_rp_some cf s p Ep) as [q [Hq _]]. intros Hn. congruence.
+  - intros Hn. rewrite poke_rd in Hn. destruct (HN Hn) as [_ Hp]. congruence.
   - rewrite poke_rp_none by assumption. assumption.
 Qed.
 
@@ -846,26 +841,50 @@ Proof.
   { pose proof (si_net s HS) as Hn. rewrite Forall_forall in Hn. auto. }
   assert (HS' : SInv (set_net s rest)).
   { apply SInv_set_net; [assumption|]. pose proof (si_net s HS) as Hn. rewrite Forall_forall in *. auto. }
+  assert (HN' : NInv (deliver_dgram cf (set_net s rest) d)).
+  { intros Hn. pose proof (deliver_dgram_rd cf (set_net s rest) d) as Hrd. cbn [s_rd set_net] in Hrd.
+    destruct (s_rd s) as [r|] eqn:Er; [destruct Hrd as [r' Hr']; congruence|].
+    destruct (HN Er) as [Hnet _]. rewrite Hnet in Hd. contradiction. }
   destruct (s_rp s) as [p|] eqn:Ep.
-  2:{ destruct (HN Ep) as [Hnet _]. rewrite Hnet in Hd. contradiction. }
+  2:{ split; [apply deliver_dgram_SInv; assumption|]. split; [exact HN'|].
+      destruct HA as [A1 A2 A3].
+      destruct (core_proj _ _ (deliver_dgram_core cf (set_net s rest) d)) as (C1 & C2 & _ & C4 & _).
+      constructor; [rewrite C1, C4; exact A1|rewrite C2, C4; exact A2|].
+      rewrite (deliver_dgram_rp_none cf (set_net s rest) d Ep). exact I. }
   assert (Hndg : ndg (rp_fr p) (s_last s) (hr_of s) d).
   { pose proof (a_rp s HA) as H3. rewrite Ep in H3. destruct H3 as (_ & _ & _ & D & _).
     rewrite Forall_forall in D. auto. }
   split; [apply deliver_dgram_SInv; assumption|]. split.
-  - destruct (deliver_dgram_rp cf (set_net s rest) d p Ep) as [q [Hq _]]. intros Hn. congruence.
+  - exact HN'.
   - eapply (proj1 (AInv_deliver_dgram cf (set_net s rest) d p HS' (AInv_set_net s rest HA Hrest) Ep Hndg Hauth)).
 Qed.
 
-Lemma hr_of_deliver_mono cf s d rest : CInv s -> In d (s_net s) -> (forall x, In x rest -> In x (s_net s)) ->
+Lemma CInv_deliver_noproxy cf s d : CInv s -> s_rp s = None -> auth_dg (s_log s) d -> CInv (deliver_dgram cf s d).
+Proof.
+  intros (HS & HN & HA) Ep Hauth. split; [apply deliver_dgram_SInv; assumption|]. split.
+  - intros Hn. pose proof (deliver_dgram_rd cf s d) as Hrd.
+    destruct (s_rd s) as [r|] eqn:Er; [destruct Hrd as [r' Hr']; congruence|].
+    destruct (HN Er) as [Hnet _].
+    rewrite (deliver_dgram_rp_none cf s d Ep). split; [|reflexivity].
+    unfold deliver_dgram. destruct (dg_toR d).
+    + destruct (s_rdead s); [assumption|]. rewrite Er. assumption.
+    + clear Hn Hrd. revert s Ep Hnet HS HN HA Hauth Er. induction (dg_subs d) as [|m t IH]; intros s Ep Hnet HS HN HA Hauth Er; cbn [fold_left]; [assumption|].
+      assert (Hs : deliver_sub_W cf s m = s) by (unfold deliver_sub_W; rewrite Ep; reflexivity).
+      rewrite Hs. apply IH; assumption.
+  - destruct HA as [A1 A2 A3].
+    destruct (core_proj _ _ (deliver_dgram_core cf s d)) as (C1 & C2 & _ & C4 & _).
+    constructor; [rewrite C1, C4; exact A1|rewrite C2, C4; exact A2|].
+    rewrite (deliver_dgram_rp_none cf s d Ep). exact I.
+Qed.
+
+Lemma hr_of_deliver_mono cf s d rest p : CInv s -> s_rp s = Some p -> In d (s_net s) -> (forall x, In x rest -> In x (s_net s)) ->
   hro_le (hr_of s) (hr_of (deliver_dgram cf (set_net s rest) d)).
 Proof.
-  intros (HS & HN & HA) Hd Hrest.
+  intros (HS & HN & HA) Ep Hd Hrest.
   assert (Hauth : auth_dg (s_log s) d).
   { pose proof (si_net s HS) as Hn. rewrite Forall_forall in Hn. auto. }
   assert (HS' : SInv (set_net s rest)).
   { apply SInv_set_net; [assumption|]. pose proof (si_net s HS) as Hn. rewrite Forall_forall in *. auto. }
-  destruct (s_rp s) as [p|] eqn:Ep.
-  2:{ destruct (HN Ep) as [Hnet _]. rewrite Hnet in Hd. contradiction. }
   assert (Hndg : ndg (rp_fr p) (s_last s) (hr_of s) d).
   { pose proof (a_rp s HA) as H3. rewrite Ep in H3. destruct H3 as (_ & _ & _ & D & _).
     rewrite Forall_forall in D. auto. }
@@ -897,26 +916,24 @@ Proof.
   intros (HS & HN & HA) Er E1 E2 E3. split; [|split].
   - apply SInv_set_rd; [assumption|]. pose proof (si_rd s HS) as Hr. rewrite Er in Hr.
     unfold ARInv, RInv in *. rewrite E1, E3. exact Hr.
-  - intros Hn. cbn in *. destruct (HN Hn) as [A B]. rewrite Er in B. rewrite E1. tauto.
+  - intros Hn. cbn in Hn. discriminate.
   - destruct HA as [A1 A2 A3]. constructor; cbn; try assumption.
     destruct (s_rp s) as [p|]; [|exact I]. destruct A3 as (B1 & B2 & B3 & B4 & B5).
     split; [assumption|]. split; [assumption|]. split; [assumption|].
     unfold hr_of, ROk in *. cbn. rewrite Er in B4, B5. rewrite E1, E2, E3. split; assumption.
 Qed.
 
-Lemma CInv_no_reader s dcps dead :
+Lemma CInv_del s dead :
   CInv s ->
-  CInv (mkSt (s_now s) (s_changes s) (s_last s) (s_inst s) (s_log s) (s_rp s) dcps (s_waits s) None dead (s_net s)).
+  CInv (mkSt (s_now s) (s_changes s) (s_last s) (s_inst s) (s_log s) None false (s_waits s) (kill_reader (s_rd s))
+             dead (s_net s)).
 Proof.
   intros (HS & HN & HA). split; [|split].
-  - destruct HS as [S1 S2 S3 S4 S5]. constructor; cbn; try assumption. exact I.
-  - intros Hn. cbn in *. destruct (HN Hn) as [A _]. tauto.
-  - destruct HA as [A1 A2 A3]. constructor; cbn; try assumption.
-    destruct (s_rp s) as [p|]; [|exact I]. destruct A3 as (B1 & B2 & B3 & B4 & B5).
-    split; [assumption|]. split; [assumption|]. split; [assumption|]. split; [|exact I].
-    eapply Forall_impl; [|exact B4]. intros d. apply ndg_mono; [lia|exact I].
+  - pose proof (si_rd s HS) as Hr. destruct HS as [S1 S2 S3 S4 S5]. constructor; cbn; try assumption.
+    destruct (s_rd s) as [r|]; cbn; [exact Hr|exact I].
+  - intros Hn. cbn in *. destruct (s_rd s) as [r|] eqn:Er; [discriminate|]. destruct (HN Er) as [A _]. tauto.
+  - destruct HA as [A1 A2 A3]. constructor; cbn; try assumption. exact I.
 Qed.
-
 
 Lemma CInv_act cf s a : depth cf = 0 -> not_remove a = true -> CInv s -> CInv (fst (act cf s a)).
 Proof.
@@ -931,7 +948,7 @@ Proof.
     destruct Hw as [[-> _]|[chs1 (W1 & W2 & W3 & W4 & W5 & W6)]]; [assumption|].
     specialize (W6 Hdepth). subst chs1.
     apply Keep; [assumption| |].
-    + intros Hn. rewrite F1 in Hn. destruct (HN Hn) as [A B]. rewrite F3, F2. tauto.
+    + intros Hn. rewrite F2 in Hn. destruct (HN Hn) as [A B]. rewrite F3, F1. tauto.
     + destruct HA as [A1 A2 A3]. destruct A2 as [A2 A2'].
       assert (Hc' : Contig (s_log s1) (s_last s1)).
       { split; [|lia]. rewrite W4, W3, sns_app, A2. cbn. rewrite zrange_snoc by assumption. reflexivity. }
@@ -972,7 +989,8 @@ Proof.
       destruct (core_proj _ _ (deliver_dgram_core cf (set_net s (remove_nth i (s_net s))) d)) as (_ & _ & _ & L2 & _).
       unfold s2. rewrite L1, L2. exact Hn. }
     destruct (s_rp s) as [p|] eqn:Ep.
-    2:{ destruct (HN Ep) as [Hnet _]. rewrite Hnet in E. destruct i; discriminate. }
+    2:{ apply CInv_deliver_noproxy; [split; [|split]; assumption| |assumption].
+        unfold s2. rewrite poke_rp_none; apply deliver_dgram_rp_none; exact Ep. }
     destruct (deliver_dgram_rp cf (set_net s (remove_nth i (s_net s))) d p Ep) as [q [Hq Hqs]].
     destruct (poke_rp_some cf _ q Hq) as [q2 [Hq2 Hqs2]]. fold s2 in Hq2.
     assert (Hfr2 : rp_fr q2 = rp_fr p).
@@ -986,20 +1004,20 @@ Proof.
       rewrite Forall_forall in D. specialize (D d (nth_error_In _ _ E)). rewrite Hfr2, Hlast2.
       eapply ndg_mono; [apply Z.le_refl| |exact D].
       unfold s2. rewrite hr_of_poke.
-      apply (hr_of_deliver_mono cf s d (remove_nth i (s_net s)) H (nth_error_In _ _ E)).
+      apply (hr_of_deliver_mono cf s d (remove_nth i (s_net s)) p H Ep (nth_error_In _ _ E)).
       intros x Hx; eapply remove_nth_in; exact Hx. }
     apply Keep.
     + apply deliver_dgram_SInv; assumption.
-    + destruct (deliver_dgram_rp cf s2 d q2 Hq2) as [q3 [Hq3 _]]. intros Hn. congruence.
+    + intros Hn. pose proof (deliver_dgram_rd cf s2 d) as Hrd. destruct (s_rd s2) as [r2|] eqn:Er2; [destruct Hrd as [r' Hr']; congruence|].
+      destruct (HN2 Er2) as [_ Hp2]. congruence.
     + eapply (proj1 (AInv_deliver_dgram cf s2 d q2 HS2 HA2 Hq2 Hndg Hauth)).
   - (* APump *) pose proof (CInv_pump cf pump_fuel s 0 H) as Hp.
     destruct (pump pump_fuel cf s 0) as [s1 n]. exact Hp.
-  - (* ATake *) destruct (s_rd s) as [r|] eqn:Er; [|assumption]. cbn [fst].
+  - (* ATake *) destruct (s_rd s) as [r|] eqn:Er; [|assumption]. destruct (rd_alive r); [|assumption]. cbn [fst].
     apply CInv_same_reader with (r := r); try assumption; reflexivity.
   - (* AMatch *) destruct (s_rd s) as [r|] eqn:Er; [assumption|].
-    destruct (s_rp s) as [p|] eqn:Ep; [rewrite orb_true_r; assumption|]. rewrite orb_false_r.
+    destruct (HN Er) as [Hnet Ep]. rewrite Ep. rewrite orb_false_r.
     destruct (s_rdead s); [assumption|].
-    destruct (HN Ep) as [Hnet _].
     destruct (rxo_ok cf rel tl); cbn [fst].
     + apply CInv_poke. destruct HA as [A1 A2 A3]. apply Keep.
       * destruct HS as [S1 S2 S3 S4 S5]. constructor; cbn; try assumption.
@@ -1013,13 +1031,14 @@ Proof.
         repeat split; try lia; try constructor.
     + apply Keep.
       * destruct HS as [S1 S2 S3 S4 S5]. constructor; cbn; try assumption. reflexivity.
-      * intros _. cbn. tauto.
+      * intros Hn. cbn in Hn. discriminate.
       * destruct HA as [A1 A2 A3]. constructor; cbn; try assumption. rewrite Ep. exact I.
-  - (* ADelReader *) apply CInv_no_reader; assumption.
-  - (* ADelPart *) apply CInv_no_reader; assumption.
+  - (* ADelReader *) apply CInv_del; assumption.
+  - (* ADelPart *) apply CInv_del; assumption.
   - (* AWfa *) destruct (is_acked (s_rp s) (s_last s)); cbn [fst]; apply CInv_set_waits; assumption.
   - (* AWfaPoll *) destruct (poll (s_waits s)). cbn [fst]. apply CInv_set_waits; assumption.
-  - (* AWfh *) destruct (s_rd s) as [r|] eqn:Er; [|assumption]. destruct (negb (rd_tl r)); [assumption|].
+  - (* AWfh *) destruct (s_rd s) as [r|] eqn:Er; [|assumption]. destruct (negb (rd_alive r)); [assumption|].
+    destruct (negb (rd_tl r)); [assumption|].
     destruct (hist_received (rd_wp r)); cbn [fst]; apply CInv_same_reader with (r := r); try assumption; reflexivity.
   - (* AWfhPoll *) destruct (s_rd s) as [r|] eqn:Er; [|assumption]. destruct (poll (rd_hwaits r)). cbn [fst].
     apply CInv_same_reader with (r := r); try assumption; reflexivity.
@@ -1167,7 +1186,8 @@ Qed.
 Lemma Mono_deliver_dgram cf s d : Mono s (deliver_dgram cf s d).
 Proof.
   unfold deliver_dgram. destruct (dg_toR d).
-  - destruct (s_rdead s); [apply Mono_refl|]. destruct (s_rd s); [|apply Mono_refl].
+  - destruct (s_rdead s); [apply Mono_refl|]. destruct (s_rd s) as [r|]; [|apply Mono_refl].
+    destruct (rd_alive r); [|apply Mono_refl].
     destruct (deliver_subs_R _ _ _ _). unfold Mono, ackd, npend; cbn. repeat split; auto; lia.
   - generalize s. induction (dg_subs d) as [|m t IH]; intros s0; cbn [fold_left]; [apply Mono_refl|].
     eapply Mono_trans; [apply Mono_deliver_sub_W|apply IH].
@@ -1202,7 +1222,7 @@ Proof.
       refine (proj2 (proj2 (Mono_trans _ _ _ (Mono_set_net s _)
                 (Mono_trans _ _ _ (Mono_deliver_dgram cf _ d) (Mono_trans _ _ _ (Mono_poke cf _) (Mono_deliver_dgram cf _ d)))))).
     - pose proof (Mono_pump cf pump_fuel s 0) as Hm. destruct (pump pump_fuel cf s 0) as [s1 n]. apply Hm.
-    - destruct (s_rd s); unfold npend; cbn; lia.
+    - destruct (s_rd s) as [r|]; [destruct (rd_alive r)|]; unfold npend; cbn; lia.
     - destruct (s_rd s); [cbn; lia|]. destruct (s_rdead s || _); [cbn; lia|].
       destruct (rxo_ok cf rel tl); cbn [fst]; [|unfold npend; cbn; lia].
       match goal with |- (npend (poke cf ?st) < _)%nat -> _ =>
@@ -1218,7 +1238,8 @@ Proof.
               length (filter (fun w => match w with WPending => true | _ => false end) l)).
       { induction l as [|x t IH]; [reflexivity|]. cbn. destruct x; cbn; lia. }
       rewrite H. lia.
-    - destruct (s_rd s) as [r|]; [|cbn; lia]. destruct (negb _); [cbn; lia|]. destruct (hist_received _); unfold npend; cbn; lia.
+    - destruct (s_rd s) as [r|]; [|cbn; lia]. destruct (negb (rd_alive r)); [cbn; lia|].
+      destruct (negb (rd_tl r)); [cbn; lia|]. destruct (hist_received _); unfold npend; cbn; lia.
     - destruct (s_rd s) as [r|]; [|cbn; lia]. destruct (poll (rd_hwaits r)). unfold npend; cbn; lia.
     - cbn; lia.
     - cbn; lia. }
